@@ -3015,7 +3015,11 @@ impl LineBuf {
 							}
 							self.select_range = Some(SelectRange::OneDim((start,end)));
 						}
-						_ => unreachable!()
+						SelectMode::Block { .. } => {
+							// A text object applied in block mode left a one-dimensional range: rebuild the windows
+							let windows = self.get_block_select_windows(&mode);
+							self.select_range = Some(SelectRange::TwoDim(windows));
+						}
 					}
 				}
 				SelectRange::TwoDim(mut windows) => {
